@@ -596,10 +596,30 @@ class MaskMonitor(Monitor):
     def flags(self, sp, acc_s, sig, sparams, n, names, flags, ok, value, w, rp, disjoint, inrange):
         ctx = self.ctx
         ctx.count('C03.flag_calls')
+        orig = monitor.original('mask')
+        # raise clause under flags.  "Raises exactly when sig could not be passed those
+        # arguments" does not mention the flags, and the flags "only ever remove parameters":
+        # the outcome (returns / raises) must be the one of the same mask without flags.  One
+        # documented exception, kept out: under hide_args every positional parameter counts as
+        # consumed by the hidden *other, so naming a positional-or-keyword parameter of sig is
+        # reported as a duplicate (deliberate conservatism of the original code).
+        pok_named = flags['hide_args'] and any(x[0] in names for x in sparams if x[1] == PK)
+        if not pok_named:
+            try:
+                orig(sig, n, *names)
+                plain_ok = True
+            except ValueError:
+                plain_ok = False
+            ctx.count('C03.flag_raise_clause')
+            if plain_ok != ok:
+                ctx.violation('C03', 'MaskMonitor', 'mask-flags-change-outcome',
+                              'mask with hide_* flags %s although the same mask without flags %s' % (
+                                  'returns' if ok else 'raises ValueError',
+                                  'returns' if plain_ok else 'raises ValueError'),
+                              dict(w, result=show(value) if ok else repr(value)), rp)
         if not ok:
             ctx.count('C03.flag_raised')
             return
-        orig = monitor.original('mask')
         res = bparams(value)
         ctx.nontrivial(('mask-flags', sparams, n, names, tuple(sorted(flags.items()))))
         ctx.sample('mask-flags', dict(w, result=show_params(res)), limit=3)
